@@ -191,23 +191,31 @@ def run : Handler := fun req => do
                         | none => false
                       -- `default` with several variants: the fall-back arm decodes the FIRST one whatever the content type
                       let dfltMany := isDefault tok && (vsM.filter fun v => isDefault v.tok).length > 1
-                      if same && (dfltMany || dupCat || miss) then
-                        if badVKnown.isNone then badVKnown := some ((if dfltMany then "F" else if dupCat then "D" else "M") ++ msg)
+                      -- F04-6: the arm of ANOTHER category of this key also matches the declared media type and comes first
+                      -- (`image/svg+xml` is an XML payload, but the Binary arm tests `starts_with("image/")`)
+                      let overlap := mine.any fun v => v.name == got.variant && v.name != wv.name &&
+                        (catsOf v).any fun c => !(catsOf wv).contains c && evalCheck ct (checkOf c)
+                      if same && (dfltMany || dupCat || miss || overlap) then
+                        if badVKnown.isNone then badVKnown := some ((if dfltMany then "F" else if dupCat then "D" else if overlap then "O" else "M") ++ msg)
                       else
                         if badV.isNone then badV := some msg
     match badV with
     | some msg => return verdict false (if nonCanon then ["KnownNonCanonicalKey"] else []) msg
     | none => pure ()
+    -- a listed within-status failure is reported next to a listed across-status one (both are seen, none hides the other)
+    let vClass : List String := match badVKnown with
+      | some msg => [if msg.startsWith "F" then "KnownDefaultFirstVariantOnly" else if msg.startsWith "D" then "KnownSameCategoryVariants" else if msg.startsWith "O" then "KnownCrossCategoryOverlap" else "KnownContentFallthrough"]
+      | none => []
     match bad, badKnown with
     | none, none =>
       match badVKnown with
-      | some msg => return verdict false ((if nonCanon then ["KnownNonCanonicalKey"] else []) ++ [if msg.startsWith "F" then "KnownDefaultFirstVariantOnly" else if msg.startsWith "D" then "KnownSameCategoryVariants" else "KnownContentFallthrough"]) (msg.drop 1).toString
+      | some msg => return verdict false ((if nonCanon then ["KnownNonCanonicalKey"] else []) ++ [if msg.startsWith "F" then "KnownDefaultFirstVariantOnly" else if msg.startsWith "D" then "KnownSameCategoryVariants" else if msg.startsWith "O" then "KnownCrossCategoryOverlap" else "KnownContentFallthrough"]) (msg.drop 1).toString
       | none => return verdict true []
     | some (n, ct, want, gotv), _ =>
       let known := (if nonCanon then ["KnownNonCanonicalKey"] else [])
       return verdict false known s!"status {n} content-type {String.ofList ct}: expected a variant declared for key {String.ofList want}, parser picks {String.ofList gotv}"
     | none, some (n, ct, want, gotv) =>
-      let known := (if nonCanon then ["KnownNonCanonicalKey"] else []) ++ ["KnownContentFallthrough"]
+      let known := ((if nonCanon then ["KnownNonCanonicalKey"] else []) ++ ["KnownContentFallthrough"] ++ vClass).eraseDups
       return verdict false known s!"status {n} content-type {String.ofList ct}: expected a variant declared for key {String.ofList want}, parser picks {String.ofList gotv}"
   let nmulti := (responses.filter fun r => r.2.length > 1).length
   let branch := s!"k{keys.length}m{nmulti}" ++ (if nonCanon then "+noncanon" else "")
